@@ -72,36 +72,73 @@ func (w *ConfWatcher) run() {
 	var lastCalled time.Time
 	previousWatchedPath, _ := filepath.EvalSymlinks(w.absolutePath)
 
+	// a change detected less than minInterval after the last signal is not dropped:
+	// it is signaled as soon as minInterval has elapsed.
+	var deferredTimer *time.Timer
+	var deferred <-chan time.Time
+
+	// returns false when terminating.
+	emit := func(currentWatchedPath string) bool {
+		if deferredTimer != nil {
+			deferredTimer.Stop()
+			deferredTimer = nil
+			deferred = nil
+		}
+
+		// wait some additional time to allow the writer to complete its job
+		time.Sleep(additionalWait)
+		previousWatchedPath = currentWatchedPath
+
+		lastCalled = time.Now()
+
+		select {
+		case w.signal <- struct{}{}:
+			return true
+		case <-w.terminate:
+			return false
+		}
+	}
+
 outer:
 	for {
 		select {
 		case event := <-w.inner.Events:
-			if time.Since(lastCalled) < minInterval {
-				continue
-			}
-
 			currentWatchedPath, _ := filepath.EvalSymlinks(w.absolutePath)
 			eventPath, _ := filepath.Abs(event.Name)
 			eventPath, _ = filepath.EvalSymlinks(eventPath)
 
+			changed := currentWatchedPath != "" &&
+				(currentWatchedPath != previousWatchedPath ||
+					(eventPath == currentWatchedPath &&
+						((event.Op&fsnotify.Write) == fsnotify.Write ||
+							(event.Op&fsnotify.Create) == fsnotify.Create)))
+
+			if elapsed := time.Since(lastCalled); elapsed < minInterval {
+				if changed && deferredTimer == nil {
+					deferredTimer = time.NewTimer(minInterval - elapsed)
+					deferred = deferredTimer.C
+				}
+				continue
+			}
+
 			if currentWatchedPath == "" {
 				// watched file was removed; wait for write event to trigger reload
 				previousWatchedPath = ""
-			} else if currentWatchedPath != previousWatchedPath ||
-				(eventPath == currentWatchedPath &&
-					((event.Op&fsnotify.Write) == fsnotify.Write ||
-						(event.Op&fsnotify.Create) == fsnotify.Create)) {
-				// wait some additional time to allow the writer to complete its job
-				time.Sleep(additionalWait)
-				previousWatchedPath = currentWatchedPath
-
-				lastCalled = time.Now()
-
-				select {
-				case w.signal <- struct{}{}:
-				case <-w.terminate:
+			} else if changed {
+				if !emit(currentWatchedPath) {
 					break outer
 				}
+			}
+
+		case <-deferred:
+			deferredTimer = nil
+			deferred = nil
+
+			currentWatchedPath, _ := filepath.EvalSymlinks(w.absolutePath)
+			if currentWatchedPath == "" {
+				previousWatchedPath = ""
+			} else if !emit(currentWatchedPath) {
+				break outer
 			}
 
 		case <-w.inner.Errors:
